@@ -183,7 +183,7 @@ func (q *Req) Outcome() string {
 	var sb strings.Builder
 	sb.WriteString(itoa(q.W.Code))
 	sb.WriteString("|")
-	sb.Write(q.W.Body)
+	sb.WriteString(NormaliseDevPage(string(q.W.Body)))
 	sb.WriteString("|")
 	hdr := q.W.Sent
 	if hdr == nil {
@@ -200,12 +200,16 @@ func (q *Req) Outcome() string {
 	sb.WriteString("|")
 	// the yield site at which an asynchronous cancel was delivered is a coordinate of the
 	// simulator, not an observable: it is left out of the comparison
+	devPage := strings.Contains(string(q.W.Body), "<title>PANIC:")
 	for i, e := range q.Events {
 		if i > 0 {
 			sb.WriteByte(' ')
 		}
 		if e.K == EvCancel {
 			e.S = ""
+		}
+		if e.K == EvSpyWrite && devPage {
+			e.A = 0 // the page's length includes the simulator's own frames
 		}
 		sb.WriteString(e.String())
 	}
@@ -215,6 +219,27 @@ func (q *Req) Outcome() string {
 		sb.WriteString(normaliseLog(string(q.logSink.b)))
 	}
 	return sb.String()
+}
+
+// NormaliseDevPage cuts the stack trace of Recovery's development-mode page below the frame of
+// (*World).Serve: what lies underneath is the simulator's own call chain, which differs between
+// a scheduler task and a solo caller and says nothing about the request.
+func NormaliseDevPage(b string) string {
+	if !strings.Contains(b, "<title>PANIC:") {
+		return b
+	}
+	i := strings.Index(b, "(*World).Serve")
+	if i < 0 {
+		return b
+	}
+	if j := strings.IndexByte(b[i:], '\n'); j >= 0 {
+		i += j
+	}
+	k := strings.LastIndex(b, "</pre>")
+	if k < i {
+		return b[:i]
+	}
+	return b[:i] + b[k:]
 }
 
 // normaliseLog keeps the request log's own records (the Logger middleware's Started/Completed
